@@ -16,9 +16,16 @@ package pe
 
 // ---- C12: the verifier accepts a submission only if it equals what matching itself selects ----
 
+//@ func resolveCredential
+//@   prop C12
+//@   assume-benign
+//@   ensures isNilIface(result.1) ==> result.0 != nil
+// Every descriptor id is mapped at most once: a surplus entry for an id cannot be hidden behind a later one.
 //@ func (PresentationSubmission).Resolve
 //@   prop C12
 //@   assume-benign
+//@   loop 1 invariant true
+//@   call mapupdate #1 requires [no-second-entry-for-a-descriptor] !(arg(1) in arg(0)) && arg(1) == inputDescriptor.Id
 //@ func (PresentationDefinition).CredentialsRequired
 //@   prop C12
 //@   pure heap
